@@ -178,6 +178,13 @@ class Distribution(Density, ABC):
             # Evaluate the log density of the conditioned distribution
             # We use _main_parameter to avoid extracting the name if not necessary
             if "_main_parameter" in kwargs:
+                # All parameters were given by position: any further keyword is unknown or a duplicate
+                extra_kwargs = [key for key in kwargs if key not in cond_vars and key != "_main_parameter"]
+                if len(extra_kwargs) > 0:
+                    raise ValueError(
+                        f"{self.logd.__qualname__}: Unexpected keyword argument(s) {extra_kwargs}: all conditioning"
+                        f" variables and the main parameter were already given by position."
+                    )
                 return new_dist.logd(kwargs["_main_parameter"])
             else:
                 main_params = {key: kwargs[key] for key in kwargs if key not in cond_vars}
